@@ -291,12 +291,33 @@ func genOFF(t *rapid.T) offCase {
 		ctr := gen.Vec3(t, 5, "polygon.centre")
 		r := gen.F(t, 0.5, 5, "polygon.radius")
 		rev := rapid.Bool().Draw(t, "polygon.reverse")
+		dart := rapid.IntRange(0, 2).Draw(t, "polygon.dart") == 0
+		if dart {
+			n = 4 // the smallest polygon that is not convex: one vertex pulled inside the triangle of the others
+		}
+		first := rapid.IntRange(0, 3).Draw(t, "polygon.first")
 		f := make([]int, n)
 		for k := 0; k < n; k++ {
 			a := 2 * math.Pi * (float64(k) + 0.5*gen.F(t, 0, 1, "polygon.jitter")) / float64(n)
-			pt := ctr.Add(u.Scale(r * math.Cos(a))).Add(v.Scale(r * math.Sin(a)))
+			rad := r
+			if dart {
+				// corners at 0, 120 and 240 degrees, the reflex corner between two of them at a quarter of the radius
+				a = 2 * math.Pi * []float64{0, 60, 120, 240}[k] / 360
+				if k == 1 {
+					rad = r * gen.F(t, 0.1, 0.4, "polygon.dent")
+				}
+			}
+			pt := ctr.Add(u.Scale(rad * math.Cos(a))).Add(v.Scale(rad * math.Sin(a)))
 			c.Verts = append(c.Verts, vec3(pt))
 			f[k] = len(c.Verts) - 1
+		}
+		if dart {
+			// any corner may come first in the face's index list
+			g := make([]int, n)
+			for k := range g {
+				g[k] = f[(k+first)%n]
+			}
+			f = g
 		}
 		if rev {
 			for i, j := 0, n-1; i < j; i, j = i+1, j-1 {
